@@ -293,13 +293,16 @@ Definition M_series_sort_index (p : sort_params) (s : sseries) (keyres : option 
   order <- order2d_to_typeerror (M_sifo_top p (ss_idepth s) (os_index (ss_obs s)) keyres asc) ;;
   M_apply_series s order.
 
-(* series.py:1696-1735 -- NOTE: no validation of the key function's result length *)
+(* series.py:1696-1737 -- the key function's result must have the Series' length (RuntimeError otherwise;
+   the check is present iff p_ssv_len_check, which the generated file reads off the source) *)
 Definition M_series_sort_values (p : sort_params) (s : sseries) (keyres : option cfs) (asc : bool) : res oseries :=
-  let v := match keyres with
-           | Some c => hd [] (cfs_keys c)
-           | None => os_values (ss_obs s)
-           end in
-  M_apply_series s (finish (p_ssv_desc p) asc (np_argsort v)).
+  match keyres with
+  | Some c =>
+      let v := hd [] (cfs_keys c) in
+      if p_ssv_len_check p && negb (length v =? length (os_values (ss_obs s)))%nat then Err "RuntimeError"
+      else M_apply_series s (finish (p_ssv_desc p) asc (np_argsort v))
+  | None => M_apply_series s (finish (p_ssv_desc p) asc (np_argsort (os_values (ss_obs s))))
+  end.
 
 (* index.py:1231-1245, index_hierarchy.py:1317-1342: labels and name *)
 Definition M_index_sort (p : sort_params) (depth : nat) (labels : list val) (keyres : option cfs) (asc : bool)
